@@ -104,8 +104,8 @@
 #define SHS2(a, b) SHS(a, b)
 #if defined(__CPROVER__) && defined(UF_ARITH)
 #define FSUB(a, b) __CPROVER_uninterpreted_fsub_float(a, b)
-#define FHS(a, b) __CPROVER_uninterpreted_fdiv_float(__CPROVER_uninterpreted_fadd_float(a, b), 2.0f)
-#define FHS2(a, b) __CPROVER_uninterpreted_fmul_float(__CPROVER_uninterpreted_fadd_float(a, b), 0.5f)
+#define FHS(a, b) __CPROVER_uninterpreted_fdiv_float(verif_uf_fadd_float(a, b), 2.0f)
+#define FHS2(a, b) verif_uf_fmul_float(verif_uf_fadd_float(a, b), 0.5f)
 #else
 #define FSUB(a, b) ((a) - (b))
 #define FHS(a, b) (((a) + (b)) / 2.0f)
